@@ -9,6 +9,7 @@ import (
 	"go/types"
 	"regexp"
 	"sort"
+	"strconv"
 	"strings"
 
 	"golang.org/x/tools/go/ssa"
@@ -352,6 +353,7 @@ func ruleC16Table(r *Run) {
 		}
 	}
 	extracted := map[string]restRow{}
+	slash := map[string]map[string]bool{} // "trailing slash" / "no trailing slash" -> rows (other than the bare "/")
 	var actions []string
 	for a := range table {
 		actions = append(actions, a)
@@ -406,6 +408,16 @@ func ruleC16Table(r *Run) {
 						ms = []string{"?"}
 					}
 					regs = append(regs, restRow{ms, "/resource" + normSuffix(pth), strings.ToLower(action), name})
+					if pth != "/" && pth != "" {
+						k := "no trailing slash"
+						if strings.HasSuffix(pth, "/") {
+							k = "trailing slash"
+						}
+						if slash[k] == nil {
+							slash[k] = map[string]bool{}
+						}
+						slash[k][strings.ToLower(action)+" "+strconv.Quote(pth)] = true
+					}
 				}
 			}
 		}
@@ -423,6 +435,22 @@ func ruleC16Table(r *Run) {
 		}
 	}
 	delete(env.vals, nameV)
+	// C16-SLASH: the comparison below is made after the default normalisation, which drops a trailing slash.
+	// With StrictLastSlash the slash is kept, and then "GET /res/create is served by create and never by show"
+	// needs the fixed create row and the {id} rows to agree on it: show's pattern "{id}/" captures "create/".
+	{
+		var kinds []string
+		for k, rows := range slash {
+			var rs []string
+			for x := range rows {
+				rs = append(rs, x)
+			}
+			sort.Strings(rs)
+			kinds = append(kinds, k+": "+strings.Join(rs, ", "))
+		}
+		sort.Strings(kinds)
+		r.Check("C16-SLASH", "(*Router).Resource:trailing slashes", res.Pos(), len(slash) <= 1, map[bool]string{true: "every member path other than the bare \"/\" is written the same way (" + strings.Join(kinds, "; ") + "): the table is the same set of rows with and without StrictLastSlash", false: "the member paths disagree on the trailing slash (" + strings.Join(kinds, "; ") + "): identical after the default normalisation, but with StrictLastSlash the fixed create row and the {id} rows no longer line up — GET /res/create/ is captured by show with id=create, and edit answers on a differently shaped path than its siblings"}[len(slash) <= 1])
+	}
 	// compare with the documented table
 	seen := map[string]bool{}
 	for _, d := range doc {
@@ -1054,6 +1082,15 @@ func ruleC17Root(r *Run) {
 				}
 			}
 			r.Check(rule, FuncName(f)+":route pattern", w.InstrPos(c), okPat, "served under prefix + a single catch-all {file:...} variable")
+			// a static-file registrar that takes an extension list must put it into the pattern: a filter written
+			// in the handler instead (strings.Contains(exts, ext), path.Ext, ...) is string logic this rule does not
+			// decide, and the usual spellings are substring tests ("s" is contained in "css|js")
+			if len(f.Params) > 3 && types.Identical(f.Params[3].Type(), types.Typ[types.String]) && okPat {
+				inPat := flowsFromDeep(pat, func(v ssa.Value) bool { return v == ssa.Value(f.Params[3]) })
+				if !inPat {
+					r.Check("C17-EXT", FuncName(f)+":extension filter in the pattern", w.InstrPos(c), false, "the extension list of "+FuncName(f)+" is not part of the route pattern: every path under the prefix reaches the handler, and whether the handler's own test (if any) admits exactly the paths that END in one of the listed extensions is not decided — a substring or path.Ext test against the raw list admits \"x.s\" for \"css|js\"")
+				}
+			}
 		}
 	}
 	r.Floor("C17-EXT", 1)
@@ -1091,7 +1128,7 @@ func init() {
 			NotDecided:  []string{"the substitution itself in BuildRequestURL.Build: placeholder grammar, escaping, query parameters", "that Match on the built path returns the same route and values (value-level string round trip through net/url)"},
 			Assumptions: []string{"Go map assignment overwrites (last writer wins)"},
 		},
-		Rules: []ruleFn{{"C15-INDEX", ruleC15Index}, {"C15-MEMO", ruleC15Memo}, {"C01-SPACE", ruleC01Space}, {"C11-ENC", ruleC11Enc}},
+		Rules: []ruleFn{{"C15-INDEX", ruleC15Index}, {"C15-MEMO", ruleC15Memo}, {"C15-ESCAPE", ruleC15Escape}, {"C01-SPACE", ruleC01Space}, {"C11-ENC", ruleC11Enc}},
 	})
 	register(&property{
 		Meta: propertyMeta{
@@ -1610,4 +1647,49 @@ func ruleC01Space(r *Run) {
 		}
 		r.Check(rule, fmt.Sprintf("(*Route).ToURL:Path argument#%d", i+1), w.InstrPos(c.(ssa.Instruction)), okLeaves, map[bool]string{true: "the URL is built from the route's own pattern field(s)", false: "the URL template is " + bad + ", not the route's registered pattern"}[okLeaves])
 	}
+}
+
+// ---------------------------------------------------------------------------
+// C15-ESCAPE: url.URL.Path holds the decoded path
+
+// ruleC15Escape: net/url escapes URL.Path itself when the URL is rendered (String, RequestURI) and the server
+// decodes once, so the value that comes back as a route parameter equals the substituted value only if what is
+// stored in URL.Path is the plain (decoded) text. A value that went through url.PathEscape / QueryEscape /
+// EscapedPath before being stored is escaped twice on the wire and arrives with the escapes still in it.
+func ruleC15Escape(r *Run) {
+	w := r.W
+	rule := "C15-ESCAPE"
+	r.Floor(rule, 1)
+	escapers := map[string]bool{"net/url.PathEscape": true, "net/url.QueryEscape": true, "(*net/url.URL).EscapedPath": true, "(*net/url.URL).String": true, "(*net/url.URL).RequestURI": true, "(net/url.Values).Encode": true}
+	n := 0
+	for _, f := range w.Funcs {
+		if f.Pkg == nil || f.Pkg.Pkg.Path() != modPath {
+			continue
+		}
+		eachInstr(f, func(in ssa.Instruction) {
+			st, ok := in.(*ssa.Store)
+			if !ok {
+				return
+			}
+			fa, ok := st.Addr.(*ssa.FieldAddr)
+			if !ok {
+				return
+			}
+			fv := fieldVar(fa.X.Type(), fa.Field)
+			if fv == nil || fv.Name() != "Path" || fv.Pkg() == nil || fv.Pkg().Path() != "net/url" {
+				return
+			}
+			n++
+			via := ""
+			flowsFromDeep(st.Val, func(v ssa.Value) bool {
+				if c, isC := v.(*ssa.Call); isC && escapers[calleeName(c)] {
+					via = calleeName(c)
+					return true
+				}
+				return false
+			})
+			r.Check(rule, fmt.Sprintf("%s:URL.Path store#%d", FuncName(f), n), w.InstrPos(in), via == "", map[bool]string{true: "the text stored in url.URL.Path does not derive from an escaping function: net/url escapes it once when the URL is rendered and the server decodes it once", false: "the text stored in url.URL.Path derives from " + via + ": URL.Path is the decoded form and is escaped again when the URL is rendered, so a value with a space, '%', '?', '#' or non-ASCII text comes back from the router with its escapes still in it (or no longer satisfies the variable's regex)"}[via == ""])
+		})
+	}
+	r.Exists(rule, "stores into url.URL.Path", token.NoPos, n >= 1, fmt.Sprintf("%d store(s) into url.URL.Path in the root package", n))
 }
